@@ -523,6 +523,13 @@ class BinaryProperty(Property):
             base64.b64decode(value)
         except (binascii.Error, TypeError):
             raise ValueError("must contain a base64 encoded string")
+        if isinstance(value, (bytes, bytearray)):
+            # the base64 text given as bytes: it is written (and read back)
+            # as a string
+            try:
+                value = bytes(value).decode("ascii")
+            except UnicodeDecodeError:
+                raise ValueError("must contain a base64 encoded string")
         return value, False
 
 
